@@ -11,7 +11,7 @@
 
 use crate::engine::gen::idx;
 use crate::engine::*;
-use crate::oracles::itproto::{drive, script_strategy, ItOp};
+use crate::oracles::itproto::{drive, drive_cl, script_strategy, ItOp};
 use crate::{ensure, fail};
 use proptest::prelude::*;
 use serde::{Deserialize, Serialize};
@@ -34,6 +34,19 @@ fn proto_classes(pass: &mut Pass, script: &[ItOp], positional_after_advance: boo
     pass.add_if(script.iter().any(|o| matches!(o, ItOp::Hint)), "size_hint observed");
     pass.add_if(script.iter().any(|o| matches!(o, ItOp::StepBy(n) if *n >= 2)), "step_by(>=2)");
     pass.add_if(items >= 3, "sequence of 3 or more items");
+    let mut adv = false;
+    for o in script {
+        if matches!(o, ItOp::Skip(_) | ItOp::StepBy(_)) {
+            break;
+        }
+        if matches!(o, ItOp::CloneRest) && adv {
+            pass.add("clone() of an already advanced iterator drained");
+            break;
+        }
+        if matches!(o, ItOp::Next | ItOp::Nth(_)) || matches!(o, ItOp::TakeRef(n) if *n > 0) {
+            adv = true;
+        }
+    }
 }
 
 fn views(buf: &[u8], r: &[u16; 4]) -> ((usize, usize), (usize, usize)) {
@@ -101,15 +114,15 @@ pub mod c08_proto {
             }
         };
         let sa = ShiftAnd::new(p);
-        run(drive(&ctx("ShiftAnd"), sa.find_all(t), want.clone(), |x| x, &c.script))?;
+        run(drive_cl(&ctx("ShiftAnd"), sa.find_all(t), want.clone(), |x| x, &c.script))?;
         let bn = BNDM::new(p);
-        run(drive(&ctx("BNDM"), bn.find_all(t), want.clone(), |x| x, &c.script))?;
+        run(drive_cl(&ctx("BNDM"), bn.find_all(t), want.clone(), |x| x, &c.script))?;
         let bom = BOM::new(p);
-        run(drive(&ctx("BOM"), bom.find_all(t), want.clone(), |x| x, &c.script))?;
+        run(drive_cl(&ctx("BOM"), bom.find_all(t), want.clone(), |x| x, &c.script))?;
         let hp = Horspool::new(p);
-        run(drive(&ctx("Horspool"), hp.find_all(t), want.clone(), |x| x, &c.script))?;
+        run(drive_cl(&ctx("Horspool"), hp.find_all(t), want.clone(), |x| x, &c.script))?;
         let kmp = KMP::new(p);
-        run(drive(&ctx("KMP"), kmp.find_all(t), want.clone(), |x| x, &c.script))?;
+        run(drive_cl(&ctx("KMP"), kmp.find_all(t), want.clone(), |x| x, &c.script))?;
         let overlap = want.windows(2).any(|w| w[1] - w[0] < p.len());
         let mut pass = Pass::new(want.len() >= 2);
         proto_classes(&mut pass, &c.script, paa, want.len());
@@ -150,12 +163,12 @@ pub mod c18_proto {
             be.push(v);
         }
         let model: Vec<u8> = c.values.iter().map(|v| v & mask).collect();
-        let o1 = drive(&format!("BitEnc(width {}) holding {:?}: iter()", w, model), be.iter(), model.clone(), |x| x, &c.script).map_err(Stop::Fail)?;
+        let o1 = drive_cl(&format!("BitEnc(width {}) holding {:?}: iter()", w, model), be.iter(), model.clone(), |x| x, &c.script).map_err(Stop::Fail)?;
         let mut si: SmallInts<u8, u64> = SmallInts::new();
         for &v in &c.ints {
             si.push(v);
         }
-        let o2 = drive(&format!("SmallInts<u8,u64> holding {:?}: iter()", c.ints), si.iter(), c.ints.clone(), |x| x, &c.script).map_err(Stop::Fail)?;
+        let o2 = drive_cl(&format!("SmallInts<u8,u64> holding {:?}: iter()", c.ints), si.iter(), c.ints.clone(), |x| x, &c.script).map_err(Stop::Fail)?;
         let mut pass = Pass::new(model.len() >= 2 || c.ints.len() >= 2);
         proto_classes(&mut pass, &c.script, o1.positional_after_advance || o2.positional_after_advance, model.len().max(c.ints.len()));
         pass.add_if(model.len() > 32 / w, "BitEnc spans several blocks");
@@ -192,7 +205,7 @@ pub mod c20_proto {
         ensure!(plain.len() <= seq.len(), "find_all on {:?} does not end", lossy(seq));
         let key = |o: Orf| (o.start, o.end, o.offset);
         let model: Vec<(usize, usize, i8)> = plain.iter().map(|o| (o.start, o.end, o.offset)).collect();
-        let o = drive(&format!("orf::Finder(min_len {}).find_all({:?})", c.min_len, lossy(seq)), finder.find_all(seq), model.clone(), key, &c.script).map_err(Stop::Fail)?;
+        let o = drive_cl(&format!("orf::Finder(min_len {}).find_all({:?})", c.min_len, lossy(seq)), finder.find_all(seq), model.clone(), key, &c.script).map_err(Stop::Fail)?;
         let mut pass = Pass::new(model.len() >= 2);
         proto_classes(&mut pass, &c.script, o.positional_after_advance, model.len());
         Ok(pass)
@@ -226,10 +239,10 @@ pub mod c19_proto {
         // expected codes from the definition: sum of rank * 4^(q-1-i) needs 2 bits per symbol
         let rank = |b: u8| b"ACGT".iter().position(|&x| x == b).unwrap();
         let codes: Vec<usize> = if text.len() >= q as usize { text.windows(q as usize).map(|w| w.iter().fold(0usize, |acc, &b| (acc << 2) | rank(b))).collect() } else { Vec::new() };
-        let o1 = drive(&format!("RankTransform(ACGT).qgrams({}, {:?})", q, lossy(text)), ranks.qgrams(q, text), codes.clone(), |x| x, &c.script).map_err(Stop::Fail)?;
+        let o1 = drive_cl(&format!("RankTransform(ACGT).qgrams({}, {:?})", q, lossy(text)), ranks.qgrams(q, text), codes.clone(), |x| x, &c.script).map_err(Stop::Fail)?;
         let mut rev = codes.clone();
         rev.reverse();
-        let o2 = drive(&format!("RankTransform(ACGT).rev_qgrams({}, {:?})", q, lossy(text)), ranks.rev_qgrams(q, text), rev, |x| x, &c.script).map_err(Stop::Fail)?;
+        let o2 = drive_cl(&format!("RankTransform(ACGT).rev_qgrams({}, {:?})", q, lossy(text)), ranks.rev_qgrams(q, text), rev, |x| x, &c.script).map_err(Stop::Fail)?;
         // ExactSizeIterator::len
         let mut it = ranks.qgrams(q, text);
         let mut left = codes.len();
@@ -414,11 +427,11 @@ pub mod c07_proto {
         let hdr = format!("intervals {:?} (start, width), query {}..{}", c.inserts, qs, qe);
         let model: Vec<(i64, i64, usize)> = tree.find(qs..qe).take(cap).map(|e| (e.interval().start, e.interval().end, *e.data())).collect();
         ensure!(model.len() < cap, "IntervalTree::find: {}: the iterator does not end", hdr);
-        let o1 = drive(&format!("IntervalTree::find: {}", hdr), tree.find(qs..qe), model.clone(), |e| (e.interval().start, e.interval().end, *e.data()), &c.script).map_err(Stop::Fail)?;
+        let o1 = drive_cl(&format!("IntervalTree::find: {}", hdr), tree.find(qs..qe), model.clone(), |e| (e.interval().start, e.interval().end, *e.data()), &c.script).map_err(Stop::Fail)?;
         let o2 = drive(&format!("IntervalTree::find_mut: {}", hdr), tree.find_mut(qs..qe), model.iter().map(|m| (m.0, m.1)).collect(), |e| (e.interval().start, e.interval().end), &c.script).map_err(Stop::Fail)?;
         let q = Contig::new("chr".to_string(), c.query.0 as isize, c.query.1 as usize, ReqStrand::Forward);
         let amodel: Vec<(i64, i64, usize)> = amap.find(&q).take(cap).map(|e| (e.interval().start as i64, e.interval().end as i64, *e.data())).collect();
-        let o3 = drive(&format!("AnnotMap::find: {}", hdr), amap.find(&q), amodel, |e| (e.interval().start as i64, e.interval().end as i64, *e.data()), &c.script).map_err(Stop::Fail)?;
+        let o3 = drive_cl(&format!("AnnotMap::find: {}", hdr), amap.find(&q), amodel, |e| (e.interval().start as i64, e.interval().end as i64, *e.data()), &c.script).map_err(Stop::Fail)?;
         let mut pass = Pass::new(model.len() >= 2);
         proto_classes(&mut pass, &c.script, o1.positional_after_advance || o2.positional_after_advance || o3.positional_after_advance, model.len());
         Ok(pass)
@@ -456,7 +469,7 @@ pub mod c09_proto {
             let my: Myers<u64> = Myers::new(p);
             let model: Vec<(usize, u8)> = my.find_all_end(t, c.k).take(cap).collect();
             items = items.max(model.len());
-            paa |= drive(&format!("Myers<u64>::find_all_end: {}", hdr), my.find_all_end(t, c.k), model, |x| x, &c.script).map_err(Stop::Fail)?.positional_after_advance;
+            paa |= drive_cl(&format!("Myers<u64>::find_all_end: {}", hdr), my.find_all_end(t, c.k), model, |x| x, &c.script).map_err(Stop::Fail)?.positional_after_advance;
         }
         {
             let mut my: Myers<u64> = Myers::new(p);
@@ -469,7 +482,7 @@ pub mod c09_proto {
             let mut my: long::Myers<u8> = long::Myers::new(p);
             let k = c.k as usize;
             let model: Vec<(usize, usize)> = my.find_all_end(t, k).take(cap).collect();
-            paa |= drive(&format!("long::Myers<u8>::find_all_end: {}", hdr), my.find_all_end(t, k), model, |x| x, &c.script).map_err(Stop::Fail)?.positional_after_advance;
+            paa |= drive_cl(&format!("long::Myers<u8>::find_all_end: {}", hdr), my.find_all_end(t, k), model, |x| x, &c.script).map_err(Stop::Fail)?.positional_after_advance;
             let model: Vec<(usize, usize, usize)> = my.find_all(t, k).take(cap).collect();
             paa |= drive(&format!("long::Myers<u8>::find_all: {}", hdr), my.find_all(t, k), model, |x| x, &c.script).map_err(Stop::Fail)?.positional_after_advance;
             let model: Vec<(usize, usize)> = my.find_all_lazy(t, k).take(cap).collect();
